@@ -6,7 +6,7 @@ from harness import sx, common as C
 N_QUICK, N_THOROUGH = 2500, 100000
 RULE = ("data: 0..40 values drawn from the bin edges, their nextafter neighbours, mid-points, gap interiors, far outliers "
         "(+-1e300), duplicates, 10% NaN, shapes (n,), (a,b), (a,b,c); weights none/int/dyadic; bins regular/irregular/gapped/"
-        "near-gapped/single given as edge array, pair array, list, binning object (Static/Numpy/FixedWidth), int or method name "
+        "near-gapped/gapped at scale 1e-6/single given as edge array, pair array, list, binning object (Static/Numpy/FixedWidth), int or method name "
         "(bins read back); dtype x keep_missed x dropna; malformed stream (unsorted/overlapping bins, wrong weight shape, int "
         "dtype + float weights, NaN without dropna). non-trivial = accepted, >=1 value inside a bin and >=1 value exactly on an "
         "edge, in a gap or outside")
@@ -23,8 +23,11 @@ def gen(rng, n, tier):
     import numpy as np
     for i in range(n):
         nb = rng.choice([1, 1, 2, 3, 4, 5, 6, 8])
-        style = rng.choice(["regular", "irregular", "irregular", "gapped", "gapped", "neargap"])
-        bins = C.gen_bins(rng, nb, gapped=(style == "gapped"), regular=(style == "regular"))
+        style = rng.choice(["regular", "irregular", "irregular", "gapped", "gapped", "neargap", "tinygapped"])
+        bins = C.gen_bins(rng, nb, gapped=(style in ("gapped", "tinygapped")), regular=(style == "regular"))
+        if style == "tinygapped":      # edges around 1e-6: gaps of 1e-7 are far above the tolerance of 1e-8 there
+            s = Fr(1, 2 ** rng.choice([20, 22, 24]))
+            bins = [[a * s, b * s] for a, b in bins]
         if style == "neargap" and nb > 1:
             k = rng.randrange(1, nb)
             for j in range(k, nb):
